@@ -64,6 +64,9 @@ def main():
     jobs = int(args[args.index("--jobs") + 1]) if "--jobs" in args else 4
     files = args[args.index("--files") + 1].split(",") if "--files" in args else ["canonical.rs", "auth.rs", "signing_key.rs", "chronoutil.rs", "error.rs", "signature.rs", "crypto.rs"]
     os.makedirs(outdir, exist_ok=True)
+    if "--phase2-only" in args:
+        survivors = [tuple(x) for x in json.load(open(os.path.join(outdir, "survivors.json")))]
+        return phase2(outdir, survivors, jobs)
     cands = candidates(files)
     random.Random(seed).shuffle(cands)
     print("%d candidate mutants; sampling until %d survive the suite" % (len(cands), n), flush=True)
@@ -98,6 +101,10 @@ def main():
         sh("git checkout -q -- src", cwd=wt)
     print("tried %d, survivors %d" % (tried, len(survivors)), flush=True)
     json.dump(survivors, open(os.path.join(outdir, "survivors.json"), "w"), indent=1)
+    return phase2(outdir, survivors, jobs)
+
+
+def phase2(outdir, survivors, jobs):
     # phase 2: run all checks on each survivor
     queue = list(survivors)
     results = {}
